@@ -1,5 +1,6 @@
 import Aoe.Lemmas.MapElev
 import Aoe.Lemmas.MapElevRange
+import Aoe.Lemmas.MapElevHist
 /-!
 # C20 – elevation editing raises exactly the requested area and keeps the terrain smooth
 
@@ -241,6 +242,23 @@ theorem setElevation_eq_pyramid_level (fs : Bool) (fuel : Nat) (s : Nat) (b x1 y
 /-- non-vacuity of `setElevation_eq_pyramid_level`: the call returns on a flat 3×3 map of elevation 2 -/
 example : ((setElevation true (elevFuel (flat 3 2)) (flat 3 2) 2 0 0 (some 1) (some 1)).map
     (fun m => m.tiles.map (·.elevation))) = .ok (pyramid 3 2 2 0 0 1 1) := by decide +kernel
+
+/-- **elevations_in_range_over_histories**: over any history of `map_size` assignments, `terrain` assignments and
+`set_elevation` calls (raising ones included: they leave the manager as it was), every elevation on the map lies in
+any interval that contains the start elevations, 0 (a fresh tile's elevation, used when the map grows), every
+elevation handed to the `terrain` setter and every requested elevation -/
+theorem elevations_in_range_over_histories (fs : Bool) (lo hi : Int) (h0 : lo ≤ 0 ∧ 0 ≤ hi) (m : Map) (ops : List Op)
+    (hm : ∀ (k : Nat) (t : Tile), m.tiles[k]? = some t → lo ≤ t.elevation ∧ t.elevation ≤ hi)
+    (ho : ∀ op ∈ ops, op.InRange lo hi) :
+    ∀ (k : Nat) (t : Tile), (run fs m ops).tiles[k]? = some t → lo ≤ t.elevation ∧ t.elevation ≤ hi :=
+  run_bnd h0 fs ops m hm ho
+
+/-- non-vacuity: a history that grows, raises, shrinks and lowers, all inside `[-1, 3]` -/
+example : ∀ op ∈ [Op.setSize 4, .setElevation 3 1 1 (some 2) (some 2), .setSize 3, .setElevation (-1) 0 0 none none],
+    op.InRange (-1) 3 := by
+  intro op h
+  simp only [List.mem_cons, List.mem_nil_iff, or_false] at h
+  rcases h with rfl | rfl | rfl | rfl <;> simp [Op.InRange]
 
 /-- non-vacuity: a non-flat 3×3 map within `[0, 4]`, raised to 3 at its centre (repaired code), returns normally -/
 example : ((setElevation true 10
